@@ -259,7 +259,8 @@ func (w *world) step(ev *event, trackers map[string]*imapserver.SessionTracker, 
 		case "Poll":
 			cmd := "NOOP"
 			if ev.X == 0 {
-				cmd = "FETCH 1 FLAGS"
+				// command names are case-insensitive: the spelling varies from poll to poll
+				cmd = []string{"FETCH 1 FLAGS", "fetch 1 FLAGS", "Fetch 1 flags"}[int(atomic.AddInt64(&pollSpelling, 1))%3]
 			}
 			un, tagged, cerr := s.raw.Cmd(cmd)
 			if cerr != nil {
@@ -427,6 +428,8 @@ func replay(beh []event) (*verdict, int, bool, error) {
 	}
 	return nil, steps, nontrivial, nil
 }
+
+var pollSpelling int64
 
 func cmdReplay(path string, workers int) {
 	out := vh.NewOut()
